@@ -198,12 +198,13 @@ def _fit_level(ctx, N):
     for cq, pkg, axis, S in CLASSES:
         cls = P.cls(cq)
         cname = cls.name
-        for kind in ("none", "int", "float"):
+        for kind in ("none", "int", "npint", "float"):
             ctor = {}
             if "PCov" in cname:
                 ctor["mixing"] = scalar("alpha", 0, 1, False, True)
-            if kind == "int":
-                ctor["n_to_select"] = integer("S")
+            if kind in ("int", "npint"):
+                # (npint: a count taken from numpy, e.g. an element of np.arange - integral, not a builtin int)
+                ctor["n_to_select"] = integer("S", labels=("numpy-scalar",) if kind == "npint" else ())
                 order = [("S", "<=", S)]
             elif kind == "float":
                 ctor["n_to_select"] = scalar("frac", 0, 1, True, False)
@@ -224,6 +225,10 @@ def _fit_level(ctx, N):
                 ctx.call_method(I, st, o, "fit", X)
             cfg = f"{pkg}.{cname} n_to_select={kind}"
             ctx.no_shape_conflicts("Shape", f"{cfg}: whole fit", I, lo, site, cfg)
+            # both validation paths of fit (with and without targets) convert X to floating point before
+            # any arithmetic: integer input must not be squared / orthogonalised in its own dtype
+            vals = [e for e in I.events[lo:] if e["kind"] == "validate" and e.get("short") == "GreedySelector.fit" and e.get("source") is not None and any(o_[0] == "in" for o_ in (e["source"].orig or ()))]
+            ctx.ob("R-FWD", f"{cfg}: fit validates X with a floating-point dtype on this path", any(e.get("dtype") and "FLOAT" in e["dtype"].upper() for e in vals), f"validation calls: {[(e['fn'], e.get('dtype')) for e in vals]}", site, cfg)
             # R-RESOLVE
             # the raw hyper-parameter (None / int / fraction) is resolved once, before the search starts: no read
             # of it inside the search hooks (initialisation, continuation, scoring, bookkeeping)
@@ -232,7 +237,7 @@ def _fit_level(ctx, N):
             # resolved extent of the buffers
             from ..apitable import dim_of  # noqa
 
-            want = {"none": Dim.of(S).floordiv(2), "int": Dim.of("S"), "float": None}[kind]
+            want = {"none": Dim.of(S).floordiv(2), "int": Dim.of("S"), "npint": Dim.of("S"), "float": None}[kind]
             inits = [e for e in I.events[lo:] if e["kind"] == "setattr" and e["attr"] == "selected_idx_" and e.get("short") == "GreedySelector._init_greedy_search"]
             if ctx.ob("R-BUFFERS", f"{cfg}: buffers allocated once by the base initialiser", len(inits) == 1, f"{len(inits)} allocations", site, cfg):
                 sh = shape_of(inits[0]["value"])
